@@ -14,6 +14,11 @@ import (
 func Edit(w *World, t *tape.Tape, prof Profile) string {
 	g := &gen{t: t, w: w, p: prof, reg: map[string]string{}, used: map[string]string{}}
 	g.rebuild()
+	if w.HasExt && t.Chance(1, 12) {
+		// an edit outside p: a type of a package that p reaches only through a field of an imported type
+		w.OextAlt = !w.OextAlt
+		return fmt.Sprintf("edit-transitive-import other/ext.T pointer-field=%v", w.OextAlt)
+	}
 	for try := 0; try < 4; try++ {
 		k := t.Intn(11)
 		if k == 9 {
